@@ -25,6 +25,16 @@ CHECKS = {
                      "compilations is sampled.",
                 note=TB + "; coq/hw/Npu.v hardware footprint model is trusted (modelled from Vela's address code and register "
                      "definitions); tools/tflsum.py reads the extents from the output file"),
+    "C03": dict(cat="translation_validation", ref="7/C03", technique="Coq-proved def-use validator (check_defuse_sound) run on decoded command streams of real compilations",
+                text="Theorem check_defuse_sound (Coq): if the extracted checker accepts a decoded stream with the identities the "
+                     "compiler intends, then in the byte-level run every byte of every IFM/IFM2 element, weight, scale and LUT range "
+                     "an operation consumes carries, at that moment, exactly the intended identity (tensor, logical offset) written "
+                     "by an earlier DMA/NPU operation, a constant of the file or the CPU side - stale rolling-buffer rows, "
+                     "uninitialised and foreign-tensor bytes are rejected (fm_tsegs_cover, read_elements_defined). Run on every "
+                     "stream of generated networks across configurations plus a corpus; sampled compilations.",
+                note=TB + "; hw/Npu.v footprint model trusted; intended identities are read from the compiler's own high-level "
+                     "command stream by tools/wrap.py (run-time wrapper); views of one buffer with inconsistent strides are not "
+                     "distinguished (C06/C10)"),
     "C13": dict(cat="other", ref="7/C13", technique="Coq proofs of exception-freedom for modelled arithmetic cores + crash sweep of generated models (exploration)",
                 text="Partial. Whole-compiler totality over all models is not a theorem. Proved in Coq: the arithmetic sites that "
                      "are modelled cannot raise (e.g. the scheduler's slack computation with the array dtype introspected from the "
